@@ -177,6 +177,9 @@ def run(ctx):
 
     # r5 seek keys: where an un-cursored query starts iterating
     seek_keys(ctx, BQ)
+    # reviewed reference (engine/census.py)
+    from rules import census_fns
+    census_fns.run(ctx, 'C13')
 
 
 def seek_keys(ctx, BQ):
